@@ -416,6 +416,15 @@ func (c *Cloud) DescribeInstanceTypes(ctx context.Context, t []string) ([]ecs.In
 	return nil, fmt.Errorf("not available in this world")
 }
 
+func (c *Cloud) orphanOfFailedCreate(id string) bool {
+	for _, tid := range c.timedOut {
+		if tid == id {
+			return true
+		}
+	}
+	return false
+}
+
 func contains(l []string, s string) bool {
 	for _, x := range l {
 		if x == s {
